@@ -14,6 +14,10 @@ import (
 	"strconv"
 	"strings"
 
+	"github.com/BondMachineHQ/BondMachine/pkg/basm"
+	"github.com/BondMachineHQ/BondMachine/pkg/bmconfig"
+	"github.com/BondMachineHQ/BondMachine/pkg/bminfo"
+	"github.com/BondMachineHQ/BondMachine/pkg/bmreqs"
 	"github.com/BondMachineHQ/BondMachine/pkg/bmstack"
 	"github.com/BondMachineHQ/BondMachine/pkg/bondmachine"
 	"github.com/BondMachineHQ/BondMachine/pkg/procbuilder"
@@ -92,6 +96,29 @@ func main() {
 		ri.Init()
 		conf.Runinfo = ri
 		for _, x := range a[7:] {
+			if strings.HasPrefix(x, "hwopt=") {
+				// hwopt=<opcode>:<reg>+<reg>;<opcode>:... : the destination registers a program uses per opcode,
+				// recorded the way the front-end does, with the onlydestregs optimisation switched on
+				mach.Arch.Tag = "0"
+				rg := bmreqs.NewReqRoot()
+				rg.Requirement(bmreqs.ReqRequest{Node: "/", T: bmreqs.ObjectSet, Name: "bm", Value: "cps", Op: bmreqs.OpAdd})
+				rg.Requirement(bmreqs.ReqRequest{Node: "/bm:cps", T: bmreqs.ObjectSet, Name: "id", Value: "0", Op: bmreqs.OpAdd})
+				node := "/bm:cps/id:0"
+				for _, ent := range strings.Split(strings.TrimPrefix(x, "hwopt="), ";") {
+					if ent == "" {
+						continue
+					}
+					p := strings.SplitN(ent, ":", 2)
+					rg.Requirement(bmreqs.ReqRequest{Node: node, T: bmreqs.ObjectSet, Name: "opcodes", Value: p[0], Op: bmreqs.OpAdd})
+					for _, r := range strings.Split(p[1], "+") {
+						if r != "" {
+							rg.Requirement(bmreqs.ReqRequest{Node: node + "/opcodes:" + p[0], T: bmreqs.ObjectSet, Name: "destregs", Value: r, Op: bmreqs.OpAdd})
+						}
+					}
+				}
+				conf.ReqRoot = rg
+				conf.HwOptimizations = procbuilder.SetHwOptimization(conf.HwOptimizations, procbuilder.HwOptimizations(procbuilder.OnlyDestRegs))
+			}
 			if strings.HasPrefix(x, "prog=") {
 				src := strings.ReplaceAll(strings.TrimPrefix(x, "prog="), ";", "\n") + "\n"
 				prog, err := mach.Arch.Assembler([]byte(src))
@@ -133,6 +160,50 @@ func main() {
 			fmt.Print(l)
 		}
 		fmt.Println()
+	case "basm":
+		// basm <source file> : run the real assembler front-end and describe the emitted machine
+		src, err := os.ReadFile(os.Args[2])
+		if err != nil {
+			fmt.Fprintln(os.Stderr, err)
+			os.Exit(2)
+		}
+		bi := new(basm.BasmInstance)
+		bi.BMinfo = new(bminfo.BMinfo)
+		bi.BasmInstanceInit(nil)
+		bi.Activate(bmconfig.ChooserMinWordSize)
+		bi.Activate(bmconfig.ChooserForceSameName)
+		if err := bi.ParseAssemblyStringDefault(string(src)); err != nil {
+			fmt.Println("BASM-ERROR parse:", err)
+			return
+		}
+		if err := bi.RunAssembler(); err != nil {
+			fmt.Println("BASM-ERROR assemble:", err)
+			return
+		}
+		if err := bi.Assembler2BondMachine(); err != nil {
+			fmt.Println("BASM-ERROR emit:", err)
+			return
+		}
+		bm := bi.GetBondMachine()
+		fmt.Printf("BM rsize=%d inputs=%d outputs=%d processors=%d\n", bm.Rsize, bm.Inputs, bm.Outputs, len(bm.Processors))
+		fmt.Printf("LINKS %v\n", bm.Links)
+		var ii, oo []string
+		for _, b := range bm.Internal_inputs {
+			ii = append(ii, b.String())
+		}
+		for _, b := range bm.Internal_outputs {
+			oo = append(oo, b.String())
+		}
+		fmt.Printf("IN %s\nOUT %s\n", strings.Join(ii, ","), strings.Join(oo, ","))
+		for i, d := range bm.Processors {
+			m := bm.Domains[d]
+			var ops []string
+			for _, op := range m.Op {
+				ops = append(ops, op.Op_get_name())
+			}
+			fmt.Printf("CP %d rsize=%d R=%d N=%d M=%d L=%d O=%d wordsize=%d maxword=%d opbits=%d ops=%s rom=%s\n", i, m.Rsize, m.R, m.N, m.M, m.L, m.O, m.WordSize, m.Max_word(), m.Opcodes_bits(),
+				strings.Join(ops, ","), strings.Join(m.Program.Slocs, ","))
+		}
 	case "bmfull":
 		// bmfull "<rsize>;<N>:<M>:<R>:<O>:<op+op+...>,...;I,O,P0,...;bonds" : every module of the machine
 		parts := strings.Split(os.Args[2], ";")
